@@ -148,7 +148,7 @@ async fn main_task<K: HKey>(spec: SeqSpec, history: Vec<Op>) -> MainOut {
     for (i, op) in history.iter().enumerate() {
         let last = i + 1 == n;
         if last {
-            if spec.checks.transparent || spec.checks.no_harm {
+            if spec.checks.transparent || spec.checks.no_harm || spec.checks.filters {
                 obs_before = Some(w.observe(&spec.keys, &spec.metas).await);
             }
             if spec.checks.no_harm {
@@ -405,6 +405,24 @@ pub fn judge(spec: &SeqSpec, history: &[Op], run: &HistoryRun) -> Vec<Finding> {
                         "index_dump",
                         format!("closed blob {} has no index file after the requested dump (listing {:?})", b.id, run.listing),
                     ));
+                }
+            }
+        }
+        if spec.checks.filters {
+            // off-loading a filter buffer must not change any filter answer
+            if let (Some(before), Some(Op::Offload { level })) = (&run.obs_before, history.last()) {
+                for (k, b) in &before.keys {
+                    if let Some(a) = obs.keys.get(k) {
+                        if a.check_filters != b.check_filters || a.check_filter_maybe != b.check_filter_maybe {
+                            out.push(finding(
+                                "offload_changes_answer",
+                                format!(
+                                    "Offload({level}) changed the filter answers for k{k}: check_filters {:?} -> {:?}, check_filter maybe {} -> {}",
+                                    b.check_filters, a.check_filters, b.check_filter_maybe, a.check_filter_maybe
+                                ),
+                            ));
+                        }
+                    }
                 }
             }
         }
